@@ -487,6 +487,20 @@ def _unroll_literal_loops(fnode):
                             out.append(_Subst({v: e}).visit(copy.deepcopy(b)))
                     hit = True
                     continue
+            if isinstance(st, ast.For) and isinstance(st.target, ast.Tuple) and all(isinstance(t_, ast.Name) for t_ in st.target.elts) and \
+                    isinstance(st.iter, (ast.Tuple, ast.List)) and 2 <= len(st.iter.elts) <= 4 and not st.orelse and all(
+                    isinstance(e, ast.Tuple) and len(e.elts) == len(st.target.elts) and all(path(x) for x in e.elts) for e in st.iter.elts):
+                # `for a, b in ((self, other), (other, self)): BODY`: the same statements for each row
+                vs = [t_.id for t_ in st.target.elts]
+                rebinds = any(isinstance(n, ast.Name) and n.id in vs and isinstance(n.ctx, (ast.Store, ast.Del)) for b in st.body for n in ast.walk(b))
+                leaves = any(isinstance(n, (ast.Break, ast.Continue)) for b in st.body for n in ast.walk(b))
+                nested_use = any(isinstance(n, (ast.FunctionDef, ast.Lambda)) for b in st.body for n in ast.walk(b))
+                if not (rebinds or leaves or nested_use):
+                    for e in st.iter.elts:
+                        for b in st.body:
+                            out.append(_Subst(dict(zip(vs, e.elts))).visit(copy.deepcopy(b)))
+                    hit = True
+                    continue
             out.append(st)
         return out
     fnode.body = block(fnode.body)
